@@ -110,6 +110,26 @@ func monitor(c schedCase, r *result, stopped bool) []string {
 	}
 	if r.Hang && !stopped {
 		add("C15:run-does-not-complete:maxActive=%d", c.MaxActive)
+		// C02: the run has to end with every step labelled; a step still `not started` although none of its
+		// dependencies can change any more has been left behind by the loop
+		if len(r.Snaps) > 0 {
+			last := r.Snaps[len(r.Snaps)-1]
+			term := func(st string) bool { return st == "finished" || st == "failed" || st == "canceled" || st == "skipped" }
+			for i := 0; i < n && i < len(last.St); i++ {
+				if last.St[i] != "not started" {
+					continue
+				}
+				all := true
+				for _, d := range c.Nodes[i].Deps {
+					if d >= len(last.St) || !term(last.St[d]) {
+						all = false
+					}
+				}
+				if all {
+					add("C02:run-does-not-end:step-left-not-started-with-all-dependencies-final:node=%d", i)
+				}
+			}
+		}
 		return v
 	}
 	if c.Dry {
